@@ -150,15 +150,13 @@ def run(ctx, env):
         for (b, i, s) in errs:
             bad = [blk for blk, t, c in pcs if body.reaches(b, blk) or blk == b]
             ctx.ob("R14.4", body.path, "error-terminal:%s" % c02.error_kind(an, body, s), not bad, "parse calls after the error: %s" % bad, site=site(s["span"]))
-    # V9 propagation of a short flowset (R7.4 shape)
-    pf = prog.body("variable_versions::v9::FlowSetParser::parse_flowsets")
-    if pf is not None:
-        ok = False
-        for p, b in prog.bodies.items():
-            if p.startswith(pf.path):
-                for blk, t, c in b.calls():
-                    if c is not None and c.local and c.path.startswith("variable_versions::v9::FlowSet::parse"):
-                        from .cache import uses_of_local
-                        uses = uses_of_local(b, t["dest"]["l"])
-                        ok = len(uses) == 1 and uses[0][0] == "callarg"
-        ctx.ob("R14.4", pf.path, "v9-short-flowset-propagates", ok, "FlowSet::parse(..)? inside parse_flowsets")
+    # V9 propagation of a short flowset (R7.4 shape, role-based)
+    from .cache import uses_of_local
+    ok = None
+    for pth, b in reach_bodies(prog, PARSE_ROOTS).items():
+        for blk, t, c in b.calls():
+            if c is not None and c.local and c.path.startswith("variable_versions::v9::FlowSet::parse") and not b.path.startswith("variable_versions::v9::FlowSet::parse"):
+                uses = uses_of_local(b, t["dest"]["l"])
+                this = len(uses) == 1 and uses[0][0] == "callarg"
+                ok = this if ok is None else (ok and this)
+    ctx.ob("R14.4", "variable_versions::v9::FlowSet::parse", "v9-short-flowset-propagates", bool(ok), "every call of v9::FlowSet::parse propagates its error with `?`")
